@@ -165,7 +165,7 @@ def check(ctx):
              '(Gdk -> GdkPixbuf.Pixbuf) is written as a dangling local name', detail=rels)
     for fn in ('Callable.get_parameter_index', 'Compound.get_field_index'):
         g = py.func('ast', fn)
-        r4.check(any(isinstance(n, ast.Raise) for n in ast.walk(g)), '%s raises on a dangling name' % fn, 'giscanner/ast.py', g.lineno, '%s does not raise' % fn)
+        r4.check(raises_on_dangling(ctx, fn), '%s raises on a dangling name' % fn, 'giscanner/ast.py', g.lineno, '%s does not raise' % fn)
     RN = gsa.summarise(ctx, MT, 'MainTransformer._apply_annotation_rename_to')
     sb = gsa.find(RN, 'store', r'\.shadowed_by$') + gsa.find(RN, 'store', r'\.shadows$')
     r4.check(len(sb) == 2 and gsa.equiv(sb[0].cond, sb[1].cond), 'shadows / shadowed-by stored on the same path', mt.rel, RN.func.lineno, 'rename-to stores: %s' % sb)
@@ -246,3 +246,8 @@ def type_verdict_rule(ctx, r2):
 
     included_flags_rule(ctx, r2)
 
+
+def raises_on_dangling(ctx, qual):
+    """the name -> index lookup cannot return normally for an unknown name: a raise (in the function or an in-class helper it calls) or list.index()"""
+    S = gsa.Summary(ctx.py, 'ast', qual, inline_only=None)
+    return bool(gsa.find(S, 'raise')) or bool(gsa.find(S, 'call', r'\.index$'))
